@@ -460,10 +460,9 @@ def install(w):
         if sym.is_intlike(x):
             yield st, (x, 1)
             return
-        a, b = ex.fresh.int("air_a"), ex.fresh.int("air_b")
-        # exact ratio in lowest terms with positive denominator (a power of two for a double)
-        st.assume(sym.And(b > 0, sym.eq(sym.mul(sym.toreal(b), x), sym.toreal(a))))
-        yield st, (a, b)
+        # exact ratio with positive denominator; the same float has the same ratio everywhere
+        st.assume(sym.ratio_axioms(x))
+        yield st, sym.ratio(x)
 
     w.reg(float.as_integer_ratio, h_as_integer_ratio, "float.as_integer_ratio")
     w.reg(int.as_integer_ratio, h_as_integer_ratio, "int.as_integer_ratio")
